@@ -43,6 +43,10 @@ pub struct Plan {
     /// also run a SQLite/HTTP subject that is configured with an allow-list holding the history's
     /// clients and is re-created (storage object and web server) at 40% of the gaps
     pub allowlisted_variant: bool,
+    /// HTTP subjects reached over a real socket, run for every case in thorough and for one case in
+    /// `socket_every` in quick
+    pub socket_kinds: Vec<Kind>,
+    pub socket_every: usize,
 }
 
 #[derive(Clone, Copy, Debug, PartialEq, Eq)]
@@ -266,7 +270,12 @@ fn run_case(plan: &Plan, h: &History, case: usize, origin: &str, sh: &Shared) {
     let mut subjects: Vec<(Kind, Option<std::collections::HashSet<Uuid>>)> = plan.kinds.iter().map(|k| (*k, None)).collect();
     if plan.allowlisted_variant {
         let ids: std::collections::HashSet<Uuid> = (0..h.n_clients).map(|c| crate::e1::client_uuid(h.seed, c)).chain([Rng::new(h.seed).fork(0xA110).uuid()]).collect();
-        subjects.push((Kind { backend: Backend::Sqlite, entry: Entry::Http, reopen_pct: 40 }, Some(ids)));
+        subjects.push((Kind { backend: Backend::Sqlite, entry: Entry::Http, reopen_pct: 40, socket: false }, Some(ids)));
+    }
+    if !plan.socket_kinds.is_empty() && case % plan.socket_every.max(1) == 0 {
+        for k in &plan.socket_kinds {
+            subjects.push((*k, None));
+        }
     }
     for (kind, allow) in &subjects {
         let mut subj = match Subject::with(*kind, plan.config, allow.clone(), None) {
@@ -499,7 +508,7 @@ pub fn finalize(plan: &Plan, seed: u64, out: ShardOut, is_replay: bool) -> Check
         "scope_histories": scope_n,
         "exhaustive_small_scope": plan.scope.map(|s| json!({"kind": format!("{:?}", s.kind), "max_chain_len": s.max_len, "cases": scope_n, "exhaustive": true})),
         "distinct_response_traces": cov.traces.len(),
-        "subjects": plan.kinds.iter().map(|k| k.name()).collect::<Vec<_>>(),
+        "subjects": plan.kinds.iter().chain(plan.socket_kinds.iter()).map(|k| k.name()).chain(if plan.allowlisted_variant { vec!["sqlite/http+reopen40+allow-list".to_string()] } else { vec![] }).collect::<Vec<_>>(),
         "counters": cov.counters,
         "situations_top": top.iter().take(40).map(|(k, v)| json!({"situation": k, "n": v})).collect::<Vec<_>>(),
     });
@@ -520,7 +529,7 @@ pub fn finalize(plan: &Plan, seed: u64, out: ShardOut, is_replay: bool) -> Check
 
 pub fn plan_for(id: &str, tier: &str) -> Option<Plan> {
     let thorough = tier == "thorough";
-    let sqlite_reopen = Kind { backend: Backend::Sqlite, entry: Entry::Lib, reopen_pct: 30 };
+    let sqlite_reopen = Kind { backend: Backend::Sqlite, entry: Entry::Lib, reopen_pct: 30, socket: false };
     let all = vec![Kind::MEM_LIB, Kind::SQL_LIB, sqlite_reopen, Kind::MEM_HTTP, Kind::SQL_HTTP];
     let base_assumptions = vec![
         "ids are bound when first observed; freshness is judged against ids seen in this run only".to_string(),
@@ -542,6 +551,8 @@ pub fn plan_for(id: &str, tier: &str) -> Option<Plan> {
         assumptions: base_assumptions,
         long: (0, 0),
         allowlisted_variant: false,
+        socket_kinds: vec![],
+        socket_every: 8,
     };
     match id {
         "C01" => {
@@ -618,11 +629,11 @@ pub fn plan_for(id: &str, tier: &str) -> Option<Plan> {
             p.kinds = vec![
                 Kind::MEM_LIB,
                 Kind::SQL_LIB,
-                Kind { backend: Backend::Sqlite, entry: Entry::Lib, reopen_pct: 10 },
-                Kind { backend: Backend::Sqlite, entry: Entry::Lib, reopen_pct: 50 },
-                Kind { backend: Backend::Sqlite, entry: Entry::Lib, reopen_pct: 100 },
+                Kind { backend: Backend::Sqlite, entry: Entry::Lib, reopen_pct: 10, socket: false },
+                Kind { backend: Backend::Sqlite, entry: Entry::Lib, reopen_pct: 50, socket: false },
+                Kind { backend: Backend::Sqlite, entry: Entry::Lib, reopen_pct: 100, socket: false },
                 Kind::MEM_HTTP,
-                Kind { backend: Backend::Sqlite, entry: Entry::Http, reopen_pct: 40 },
+                Kind { backend: Backend::Sqlite, entry: Entry::Http, reopen_pct: 40, socket: false },
             ];
             p.n_random = n(500, 6000);
             p.required = vec!["AddSnapshot|", "GetSnapshot|", "|conflict"];
@@ -633,9 +644,11 @@ pub fn plan_for(id: &str, tier: &str) -> Option<Plan> {
             p.mon.facts = true;
             p.compare = Compare::Twin;
             p.kinds = vec![Kind::MEM_LIB, Kind::MEM_HTTP, Kind::SQL_LIB, Kind::SQL_HTTP];
+            p.socket_kinds = vec![Kind { backend: Backend::Mem, entry: Entry::Http, reopen_pct: 0, socket: true }, Kind { backend: Backend::Sqlite, entry: Entry::Http, reopen_pct: 0, socket: true }];
+            p.socket_every = if thorough { 4 } else { 16 };
             p.n_random = n(800, 8000);
             p.required = vec!["row:AddVersion:accepted-urgency-None", "row:AddVersion:accepted-urgency-Low", "row:AddVersion:accepted-urgency-High", "row:AddVersion:conflict", "row:GetChildVersion:found", "row:GetChildVersion:not-found", "row:GetChildVersion:gone", "row:AddSnapshot:snap-ok", "row:AddSnapshot:no-such-client", "row:GetSnapshot:snapshot", "row:GetSnapshot:no-snapshot"];
-            p.rule = "every operation is executed through the HTTP handlers and through the library on twin storages of the same kind; the raw HTTP response (status, id headers, X-Snapshot-Request, content type, body, headers that must be absent) is checked against the decode-table row of the library outcome. snapshot_versions=4 so that urgency none/low/high all occur in real histories.";
+            p.rule = "every operation is executed through the HTTP handlers and through the library on twin storages of the same kind; the raw HTTP response (status, id headers, X-Snapshot-Request, content type, body, headers that must be absent) is checked against the decode-table row of the library outcome. snapshot_versions=4 so that urgency none/low/high all occur in real histories. One history in 16 (quick) / 4 (thorough) is additionally run against an in-process HttpServer over a real TCP socket (both backends), so that the HTTP/1.1 serialisation of status, headers and body is part of what is compared.";
         }
         "C18" => {
             p.property = "C18";
